@@ -88,12 +88,12 @@ pub fn dec_u(v: &Value) -> UBig {
 #[cfg(dashu_verif)]
 pub fn repr_u(x: &UBig) -> Value {
     let (neg, cap, len, heap, _ptr) = x.verif_repr();
-    json!({"neg": neg, "cap": cap, "len": len, "heap": heap})
+    json!({"neg": neg, "cap": cap, "len": len, "heap": heap, "wb": WORD_BYTES})
 }
 #[cfg(dashu_verif)]
 pub fn repr_i(x: &IBig) -> Value {
     let (neg, cap, len, heap, _ptr) = x.verif_repr();
-    json!({"neg": neg, "cap": cap, "len": len, "heap": heap})
+    json!({"neg": neg, "cap": cap, "len": len, "heap": heap, "wb": WORD_BYTES})
 }
 #[cfg(not(dashu_verif))]
 pub fn repr_u(_x: &UBig) -> Value {
